@@ -26,8 +26,10 @@ EXTENDS StoreModel, Json
 CONSTANTS TraceFile, OutFile
 Trace == ndJsonDeserialize(TraceFile)
 
-VARIABLES l, viol, done
-vars == <<l, g, content, tags, indexed, stray, tagann, viol, done>>
+VARIABLES l, viol, done,
+          par,      \* the operations of the concurrent tail in progress (<<>> outside one)
+          lost      \* the concurrent tail ended in a state no sequential order explains: the model state is unknown
+vars == <<l, g, content, tags, indexed, stray, tagann, viol, done, par, lost>>
 
 Rec == Trace[l]
 NoG == [n |-> 0]
@@ -35,12 +37,14 @@ NoG == [n |-> 0]
 V(checks) == viol' = viol \cup {[t |-> Rec.t, i |-> Rec.i, inv |-> c[1]] : c \in {c \in checks : ~c[2]}}
 
 Init == l = 1 /\ g = NoG /\ content = {} /\ tags = <<>> /\ indexed = {} /\ stray = {} /\ tagann = <<>> /\ viol = {} /\ done = FALSE
+        /\ par = <<>> /\ lost = FALSE
 
 EvInit ==
   /\ Rec.e = "init"
   /\ g' = Rec /\ content' = {} /\ indexed' = {} /\ stray' = {}
   /\ tags' = [r \in Rng(Rec.refs) |-> 0]
   /\ tagann' = [r \in Rng(Rec.refs) |-> ""]
+  /\ par' = <<>> /\ lost' = FALSE
   /\ UNCHANGED viol
 
 \* mutating operations
@@ -51,7 +55,7 @@ EvOp ==
      /\ tagann' = IF Rec.op = "tag" /\ x.res = "ok" THEN [tagann EXCEPT ![Rec.ref] = Rec.ann] ELSE tagann
      /\ V({<<"OpResult", Rec.res = x.res>>,
            <<"NoHang", Rec.res # "hang">>})
-  /\ UNCHANGED g
+  /\ UNCHANGED <<g, par, lost>>
 
 \* queries
 EvQuery ==
@@ -67,7 +71,7 @@ EvQuery ==
          [] Rec.op = "tags" -> {<<"TagsListing", /\ Rec.res = "ok" /\ Rec.list = Rec.sorted
                                                   /\ Rng(Rec.list) = {r \in Refs : tags[r] # 0 /\ r \in Rng(Rec.gt)}
                                                   /\ Len(Rec.list) = Cardinality(Rng(Rec.list))>>})
-  /\ UNCHANGED <<g, content, tags, indexed, stray, tagann>>
+  /\ UNCHANGED <<g, content, tags, indexed, stray, tagann, par, lost>>
 
 \* an observation of a store (the live one or a reopened one): o = [exists, fetchok, tags, bydigest, pred, taglist]
 TagPairs(T) == {<<r, T[r]>> : r \in {q \in Refs : T[q] # 0}}
@@ -85,36 +89,78 @@ ObsChecks(o, pfx) ==
 
 EvObs ==
   /\ Rec.e = "obs"
-  /\ V(ObsChecks(Rec.o, IF Rec.mode = "live" THEN "Live" ELSE "Reopen"))
-  /\ UNCHANGED <<g, content, tags, indexed, stray, tagann>>
+  /\ V(IF lost THEN {} ELSE ObsChecks(Rec.o, IF Rec.mode = "live" THEN "Live" ELSE "Reopen"))
+  /\ UNCHANGED <<g, content, tags, indexed, stray, tagann, par, lost>>
 
 \* the raw directory of an OCI layout
 EvDisk ==
   /\ Rec.e = "disk"
-  /\ V({<<"DiskLayoutParses", Rec.layoutok /\ Rec.indexok>>,
+  /\ V(IF lost THEN {} ELSE
+       {<<"DiskLayoutParses", Rec.layoutok /\ Rec.indexok>>,
         <<"DiskBlobNames", Rec.badblobs = 0>>,
         <<"DiskBlobFiles", Rng(Rec.blobs) = Present>>,
         <<"DiskNamedEntriesResolve", Rec.danglingnamed = 0>>,
         <<"DiskIndexTags", ~Rec.saved \/ {<<Rec.entries[i][1], Rec.entries[i][2]>> : i \in {j \in 1..Len(Rec.entries) : Rec.entries[j][1] # ""}}
                                = TagPairs(tags)>>})
-  /\ UNCHANGED <<g, content, tags, indexed, stray, tagann>>
+  /\ UNCHANGED <<g, content, tags, indexed, stray, tagann, par, lost>>
 
 EvReopenErr ==
   /\ Rec.e = "reopenerr"
   /\ V({<<"ReopenOpens", FALSE>>})
-  /\ UNCHANGED <<g, content, tags, indexed, stray, tagann>>
+  /\ UNCHANGED <<g, content, tags, indexed, stray, tagann, par, lost>>
+
+\* ----- the concurrent tail (C06, last clause): "after concurrent operations quiesce the state is the one some
+\* sequential order of the same operations would produce, and no operation ever returned bytes that do not match
+\* its descriptor".  The operations are collected; at the end every order of them is run through the model from
+\* the state before the tail, and the quiescent observation of the live store must equal one of the final states.
+Cur == [content |-> content, tags |-> tags, indexed |-> indexed, stray |-> stray, tagann |-> tagann]
+Apply(st, r) ==
+  LET x == ExpectOn(st.content, st.tags, st.indexed, st.stray, r) IN
+  [content |-> x.content, tags |-> x.tags, indexed |-> x.indexed, stray |-> x.stray,
+   tagann |-> IF r.op = "tag" /\ x.res = "ok" THEN [st.tagann EXCEPT ![r.ref] = r.ann] ELSE st.tagann]
+RECURSIVE Finals(_, _)
+Finals(st, K) == IF K = {} THEN {st} ELSE UNION {Finals(Apply(st, par[k]), K \ {k}) : k \in K}
+\* the live observation o is the one of state f
+Matches(o, f) ==
+  LET pres == f.content \cup f.stray IN
+  /\ Rng(o.exists) = pres /\ Rng(o.fetchok) = pres /\ Rng(o.existsplain) = pres /\ Rng(o.fetchplain) = pres
+  /\ {<<o.tags[i][1], o.tags[i][2]>> : i \in 1..Len(o.tags)} = {<<r, f.tags[r]>> : r \in {q \in Refs : f.tags[q] # 0}}
+  /\ (IsOci => \A i \in 1..Len(o.tags) : o.tags[i][1] \in Refs => o.tags[i][3] = f.tagann[o.tags[i][1]])
+  /\ \A n \in Nodes : Rng(o.pred[n]) = Pred(f.content, n)
+  /\ (IsOci => Rng(o.byindex) = f.indexed /\ Rng(o.byblob) = pres \ f.indexed)
+
+EvPar == Rec.e = "par" /\ par' = <<>> /\ UNCHANGED <<g, content, tags, indexed, stray, tagann, viol, lost>>
+EvPop ==
+  /\ Rec.e = "pop"
+  /\ par' = Append(par, Rec)
+  /\ V({<<"ConcurrentNoHang", Rec.res # "hang">>,
+        <<"ConcurrentFetchMatches", (Rec.op = "fetch" /\ Rec.res = "ok") => Rec.bytesok>>})
+  /\ UNCHANGED <<g, content, tags, indexed, stray, tagann, lost>>
+EvParHang == Rec.e = "parhang" /\ V({<<"ConcurrentNoHang", FALSE>>}) /\ lost' = TRUE
+             /\ UNCHANGED <<g, content, tags, indexed, stray, tagann, par>>
+EvParEnd ==
+  /\ Rec.e = "parend"
+  /\ LET good == {f \in Finals(Cur, 1..Len(par)) : Matches(Trace[l + 1].o, f)} IN
+     IF good # {}
+     THEN LET f == CHOOSE x \in good : TRUE IN
+          /\ content' = f.content /\ tags' = f.tags /\ indexed' = f.indexed /\ stray' = f.stray /\ tagann' = f.tagann
+          /\ UNCHANGED <<viol, lost>>
+     ELSE /\ V({<<"ConcurrentSerializable", FALSE>>}) /\ lost' = TRUE
+          /\ UNCHANGED <<content, tags, indexed, stray, tagann>>
+  /\ par' = <<>>
+  /\ UNCHANGED g
 
 Step ==
   /\ l <= Len(Trace)
   /\ l' = l + 1
   /\ done' = FALSE
-  /\ \/ EvInit \/ EvOp \/ EvQuery \/ EvObs \/ EvDisk \/ EvReopenErr
+  /\ \/ EvInit \/ EvOp \/ EvQuery \/ EvObs \/ EvDisk \/ EvReopenErr \/ EvPar \/ EvPop \/ EvParHang \/ EvParEnd
 
 Finish ==
   /\ l = Len(Trace) + 1 /\ ~done
   /\ done' = TRUE
   /\ JsonSerialize(OutFile, [consumed |-> l - 1, viol |-> viol])
-  /\ UNCHANGED <<l, g, content, tags, indexed, stray, tagann, viol>>
+  /\ UNCHANGED <<l, g, content, tags, indexed, stray, tagann, viol, par, lost>>
 
 Next == Step \/ Finish
 Spec == Init /\ [][Next]_vars
